@@ -34,6 +34,10 @@ From V Require Import Proto.ThreadPoolDefs.
 From V Require Import Proto.NewThreadDefs.
 From V Require Import Proto.SrThunkDefs.
 From V Require Import Proto.RemoteQueueDefs.
+From V Require Import Proto.TypeEraseNextDefs.
+From V Require Import Proto.AsyncStackDefs.
+From V Require Import Proto.TakeUntilDefs.
+From V Require Import Proto.StopImmediatelyDefs.
 Extraction Blacklist List String Int.
 Cd "../ocaml".
 Extraction "model.ml"
@@ -210,5 +214,21 @@ Extraction "model.ml"
   RemoteQueue.executed
   RemoteQueue.returned
   RemoteQueue.blocked
+  TypeEraseNext.step
+  TypeEraseNext.init
+  TypeEraseNext.quiescent
+  AsyncStack.step
+  AsyncStack.init
+  AsyncStack.quiescent
+  AsyncStack.chain
+  AsyncStack.anc
+  AsyncStack.root_chain
+  AsyncStack.gen
+  TakeUntil.step
+  TakeUntil.init
+  TakeUntil.quiescent
+  StopImmediately.step
+  StopImmediately.init
+  StopImmediately.quiescent
   (*END*).
 Cd "../coq".
